@@ -48,12 +48,27 @@ FS_OPS = [["create"], ["write"], ["chmod"], ["remove"], ["rename"], ["create", "
 FS_OPS_W = [16, 30, 8, 16, 14, 4, 3, 3, 2, 2]
 
 
-def fs_file(rng, k, last):
+def poach(rng, k, last, n):
+    """a content of source k that uses the path expression of a content of another source (v and v+500 share the
+    expression): well-formed, but the repository refuses it while the other source has that content loaded"""
+    others = [x for x in range(n) if x != k]
+    o = rng.choice(others)
+    base = last[o] if o in last and last[o] < 500 and rng.random() < 0.8 else rng.choice(pool(o))
+    return 500 + base
+
+
+def fs_file(rng, k, last, links=0.2, poaching=0.08):
     spec, v = content(rng, k, last.get(k))
     if spec is None:
         spec = {"st": rng.choice(["missing", "missing", "missing", "dir"])}
+    elif spec["st"] == "valid" and not spec.get("bad") and rng.random() < poaching:
+        v = poach(rng, k, last, NSRC)
+        spec = {"st": "valid", "v": v}
     if v is not None:
         last[k] = v
+    if rng.random() < links:
+        # the directory entry is a symbolic link: to a file of that state, to a directory, or to nothing
+        spec["link"] = True
     return spec
 
 
@@ -61,10 +76,12 @@ def gen_fs(rng, max_steps=14):
     last = {}
     init = []
     for k in range(NSRC):
-        if rng.random() < 0.35:
-            f = fs_file(rng, k, last)
-            if f["st"] in ("missing", "dir") or (f["st"] == "invalid" and rng.random() < 0.7):
+        if rng.random() < 0.4:
+            f = fs_file(rng, k, last, links=0.35, poaching=0.0)
+            if f["st"] == "missing" and not f.get("link"):
                 continue
+            if (f["st"] == "invalid" or (f["st"] == "dir" and f.get("link"))) and rng.random() < 0.7:
+                continue       # Start fails on the first entry it cannot read
             init.append({"k": k, "file": f})
     case = {"fam": "prov", "kind": "fs", "init": init, "start": maybe_rej(rng, {}, list(range(NSRC)), 0.04), "steps": []}
     hot = rng.sample(range(NSRC), rng.choice([1, 2, 2, 3]))
@@ -90,7 +107,15 @@ def gen_fslive(rng, max_steps=12):
     for k in range(NSRC):
         if rng.random() < 0.3:
             spec, v = content(rng, k, kinds=("valid", "empty"), weights=(80, 20))
-            spec.pop("bad", None)
+            if spec.get("bad"):
+                spec, v = {"st": "empty", "i": 0}, None
+            r = rng.random()
+            if r < 0.35:
+                spec["link"] = True                       # symbolic link present before the provider starts
+            elif r < 0.42:
+                spec, v = {"st": "missing", "link": True}, None      # dangling link
+            elif r < 0.45:
+                spec, v = {"st": "dir", "link": True}, None          # link to a directory: Start fails on it
             init.append({"k": k, "file": spec})
             state[k] = spec
             if v:
@@ -102,10 +127,13 @@ def gen_fslive(rng, max_steps=12):
 
     for _ in range(rng.randint(3, max_steps)):
         present = sorted(state)
-        choices = [("put", 40)]
+        plain = [k for k in present if not state[k].get("link")]      # chmod / truncate / write go through a link to
+        choices = [("put", 40)]                                        # its target and are not seen in the directory
         if present:
-            choices += [("rm", 12), ("mv", 14), ("mvout", 8), ("chmod", 6), ("trunc", 6)]
-            if any(state[k]["st"] == "valid" and state[k]["v"] % 5 != 0 and not state[k].get("bad") for k in present):
+            choices += [("rm", 12), ("mv", 14), ("mvout", 8)]
+        if plain:
+            choices += [("chmod", 6), ("trunc", 6)]
+            if any(state[k]["st"] == "valid" and state[k]["v"] % 5 != 0 and not state[k].get("bad") for k in plain):
                 choices.append(("write", 10))
         do = rng.choices([c for c, _ in choices], weights=[w for _, w in choices])[0]
         if do == "put":
@@ -116,6 +144,13 @@ def gen_fslive(rng, max_steps=12):
                               weights=(65, 15, 20))
             if v:
                 last[k] = v
+            r = rng.random()
+            if r < 0.25:
+                spec["link"] = True          # a symbolic link is moved in (created or re-pointed atomically)
+            elif r < 0.30:
+                spec = {"st": "missing", "link": True}
+            elif r < 0.33:
+                spec = {"st": "dir", "link": True}
             state[k] = spec
             step = {"do": "put", "k": k, "file": spec}
         elif do == "rm":
@@ -135,14 +170,14 @@ def gen_fslive(rng, max_steps=12):
             del state[k]
             step = {"do": "mvout", "k": k}
         elif do == "chmod":
-            k = rng.choice(present)
+            k = rng.choice(plain)
             step = {"do": "chmod", "k": k, "mode": rng.randrange(2), "file": state[k]}
         elif do == "trunc":
-            k = rng.choice(present)
+            k = rng.choice(plain)
             state[k] = {"st": "empty", "i": 0}
             step = {"do": "trunc", "k": k}
         else:
-            k = rng.choice([k for k in present if state[k]["st"] == "valid" and state[k]["v"] % 5 != 0
+            k = rng.choice([k for k in plain if state[k]["st"] == "valid" and state[k]["v"] % 5 != 0
                             and not state[k].get("bad")])
             old = state[k]["v"]
             cand = [v for v in range(10 * (old // 10) + 1, 10 * (old // 10) + 9)
@@ -188,6 +223,9 @@ def gen_http(rng, max_steps=14):
         r = rng.random()
         if r < 0.62:
             spec, v = content(rng, k, last.get(k), kinds=("valid", "empty", "invalid"), weights=(70, 12, 18))
+            if n > 1 and spec["st"] == "valid" and not spec.get("bad") and rng.random() < 0.1:
+                v = poach(rng, k, last, n)
+                spec = {"st": "valid", "v": v}
             if v:
                 last[k] = v
         elif r < 0.74:
